@@ -16,6 +16,8 @@ pub struct Task {
     pub weight: usize,
     /// A task anthem refuses with an error (kept for C18's error-output determinism; useless for C10/C20).
     pub refused: bool,
+    /// Many large problems: drawn rarely by C10 (it costs scheduler steps, not coverage).
+    pub heavy: bool,
 }
 
 fn parse_line(id: String, dir: &Path, words: &[&str]) -> Option<Task> {
@@ -44,7 +46,7 @@ fn parse_line(id: String, dir: &Path, words: &[&str]) -> Option<Task> {
     }
     let weight = files.iter().map(|f| fs::metadata(dir.join(f)).map(|m| m.len() as usize).unwrap_or(0)).sum();
     let has_direction = options.iter().any(|o| o.starts_with("--direction"));
-    Some(Task { id, dir: dir.to_path_buf(), files, options, has_direction, weight, refused: false })
+    Some(Task { id, dir: dir.to_path_buf(), files, options, has_direction, weight, refused: false, heavy: false })
 }
 
 fn walk(dir: &Path, out: &mut Vec<PathBuf>) {
@@ -89,10 +91,12 @@ pub fn load(repo: &Path, verif: &Path) -> Vec<Task> {
             continue;
         }
         let refused = words[0].starts_with('!');
-        let name = words[0].trim_start_matches('!');
+        let heavy = words[0].starts_with('~');
+        let name = words[0].trim_start_matches(['!', '~']);
         let dir = corpus.join(name);
         if let Some(mut task) = parse_line(format!("corpus:{name}#{n}"), &dir, &words[1..]) {
             task.refused = refused;
+            task.heavy = heavy;
             tasks.push(task);
         }
     }
